@@ -5,13 +5,12 @@ go 1.19
 require (
 	github.com/gocql/gocql v0.0.0
 	github.com/gocql/gocql/lz4 v0.0.0
+	github.com/golang/snappy v0.0.3
+	github.com/pierrec/lz4/v4 v4.1.8
+	gopkg.in/inf.v0 v0.9.1
 )
 
-require (
-	github.com/golang/snappy v0.0.3 // indirect
-	github.com/hailocab/go-hostpool v0.0.0-20160125115350-e80d13ce29ed // indirect
-	gopkg.in/inf.v0 v0.9.1 // indirect
-)
+require github.com/hailocab/go-hostpool v0.0.0-20160125115350-e80d13ce29ed // indirect
 
 replace github.com/gocql/gocql => /repo
 
